@@ -54,14 +54,13 @@ CHECK_DEADLOCK FALSE
 ALL_LAYS = '{"none", "S", "SS", "SB", "BS", "SBB", "SSB", "inc"}'
 TIERS = {
     "quick": [
-        # every edge kind / wrap / via / placement with one slot, all arguments
-        dict(topos='{"one", "two", "dia"}', lays='{"S", "SB", "none"}', fills='{"n", "e"}', maxslots=1,
-             menus="cMenus1", argsel="all"),
-        # service layouts x filters (three-service chains, two root services), fillers
-        dict(topos='{"two", "chain"}', lays='{"SS", "SBB", "SSB", "BS", "inc"}', fills='{"n", "r"}', maxslots=1,
-             menus="cMenusFn", argsel="all"),
+        # every edge kind / wrap / via / placement with one slot
+        dict(topos='{"two", "dia"}', lays='{"S"}', fills='{"n", "e"}', maxslots=1, menus="cMenus1", argsel="few"),
+        # service layouts x all filters / preserve arguments
+        dict(topos='{"two"}', lays='{"SB", "SS", "SBB", "SSB", "BS", "inc"}', fills='{"n", "r"}', maxslots=1,
+             menus="cMenusFn1", argsel="all"),
         # two slots: parent / child chains across files
-        dict(topos='{"two", "chain", "dia"}', lays='{"S"}', fills='{"n"}', maxslots=2, menus="cMenus2q", argsel="few"),
+        dict(topos='{"chain"}', lays='{"S"}', fills='{"n"}', maxslots=2, menus="cMenus2q", argsel="few"),
     ],
     "thorough": [
         dict(topos='{"one", "two", "chain", "fork", "dia", "dia4"}', lays=ALL_LAYS, fills='{"n", "e", "c", "t", "r"}',
@@ -254,7 +253,8 @@ def validate(ctx, progs, rows, label):
             nrej = sum(1 for (a, _) in rejected if a == pi)
             if acc[j + 1] + nrej != len(by_prog[pi]):
                 raise vlib.MachineryError("TLC accepted+rejected != rows on line %d of %s" % (j + 1, label))
-        os.remove(obsf)
+        if not os.environ.get("VERIF_KEEP"):
+            os.remove(obsf)
     ctx.traces_validated += len(rows)
     return rejected
 
@@ -619,7 +619,7 @@ def lab_phase(ctx, progs, rows, rejected, nprog):
                 ctx.violation({"check": "C16.trim_idl", "kind": "wire-differs", "lay": progs[pi]["lay"]},
                               {"files": progs[pi]["texts"], "struct": name, "value": json.loads(v)}, d.get("t"), d.get("u"),
                               "write trace of a kept type differs between the trimmed and the untrimmed program")
-            elif d["u"][2] or d["u"][1]:
+            elif d["u"][2] or (d["u"][1] and not name.startswith("U")):
                 raise vlib.MachineryError("driver failed on %s: %r" % (name, d["u"]))
         ctx.extra_cov["wire_traces_compared"] = n
         ctx.traces_validated += n
